@@ -4,7 +4,7 @@
    configuration after any finite sequence of set operations, Up and Down
    on a fresh device, for any bind behaviour (env) whose automatic port is a
    16-bit number. *)
-From WG Require Import Base.Prelude Gen.Constants Uapi.Model Uapi.Spec Uapi.Proofs.
+From WG Require Import Base.Prelude Gen.Constants Uapi.Model Uapi.Spec Uapi.Proofs Uapi.Refine.
 Local Open Scope N_scope.
 
 (* The error codes the property text means, as the code has them now. *)
@@ -97,13 +97,17 @@ Theorem C09_get_set_roundtrip_refuted : ~ C09_get_set_roundtrip_statement.
 Proof. exact get_set_roundtrip_refuted. Qed.
 Print Assumptions C09_get_set_roundtrip_refuted.
 
-(* Mirror model = protocol specification (Uapi/Spec.v), statement only: it is
-   evaluated on every sequence the correspondence check runs (kind 2), not
-   proved. *)
-Definition C09_model_refines_spec_statement : Prop :=
-  forall e ops,
-    outs (step e) fresh ops = outs (sem_step e) afresh ops /\
-    mview (final (step e) fresh ops) = view (final (sem_step e) afresh ops).
+(* Mirror model = protocol specification (Uapi/Spec.v: validity of a line by
+   section kind, effect of a valid line on an abstract configuration whose
+   allowed IPs are ONE prefix -> owner map): for every sequence of set
+   operations, Up, Down and undelivered gets, the error codes are the same
+   and so is the observable configuration (keys, port, fwmark, peers by key
+   with their attributes and sorted prefixes). *)
+Theorem C09_model_refines_spec : forall e ops,
+  outs (step e) fresh ops = outs (sem_step e) afresh ops /\
+  mview (final (step e) fresh ops) = view (final (sem_step e) afresh ops).
+Proof. exact model_refines_spec. Qed.
+Print Assumptions C09_model_refines_spec.
 
 (* Value syntax: what get prints, set reads back. *)
 Theorem C09_value_syntax_roundtrip : forall n k,
